@@ -65,6 +65,17 @@ def generate(rng, tier):
         lines = ["ctor plain", "load %s %d %s" % (kind, lazy, hx(b)), "obsall"]
         c = Case("g%d" % i, lines, {"expected": im.expected_obs(), "nsec": len(im.sections), "nseg": len(im.segments), "size": len(b)})
         cases.append(c)
+    # name offsets beyond 16 bits: a section-name string table larger than 64 KiB (one very long name first)
+    for j, cfg in enumerate(CFGS if tier == "thorough" else [CFGS[rng.randrange(4)], CFGS[rng.randrange(4)]]):
+        S = lambda **k: dict(dict(flags=0, addr=0, size=0, link=0, info=0, addralign=1, entsize=0), **k)
+        big = bytes(rng.choice(b"abcdefgh") for _ in range(65536 + rng.randint(1, 40)))
+        secs = [S(sname=b".text", type=1, flags=6, data=b"\x90" * 8, addralign=4),
+                S(sname=big, type=1, data=b"x"),
+                S(sname=b".far", type=1, flags=2, data=b"far data"),
+                S(sname=b".farther", type=8, flags=3, data=None, size=32)]
+        im, b = elfimg.build(cfg[0], cfg[1], secs, [dict(type=1, flags=5, align=4, cover=[1])], rng)
+        lines = ["ctor plain", "load %s %d %s" % ("str" if j % 2 == 0 else "file", j % 2, hx(b)), "obsall"]
+        cases.append(Case("n%d" % j, lines, {"expected": im.expected_obs(), "nsec": len(im.sections), "nseg": len(im.segments), "size": len(b)}))
     # bundled examples decoded by the independent decoder
     k = 0
     for f in sorted(glob.glob("/repo/tests/elf_examples/*")):
@@ -85,6 +96,6 @@ def generate(rng, tier):
 def distribution(cases):
     d = {"generated": 0, "examples": 0, "sections": 0, "segments": 0, "max_size": 0}
     for c in cases:
-        d["generated" if c.id.startswith("g") else "examples"] += 1
+        d["generated" if c.id.startswith(("g", "n")) else "examples"] += 1
         d["sections"] += c.meta["nsec"]; d["segments"] += c.meta["nseg"]; d["max_size"] = max(d["max_size"], c.meta["size"])
     return d
